@@ -19,8 +19,20 @@ import (
 	"github.com/yorkie-team/yorkie/pkg/key"
 )
 
+// CallRec is one RPC as seen from the client side (for the protocol model).
+type CallRec struct {
+	Kind      string // attach | sync | detach | remove | activate | deactivate
+	Client    time.ActorID
+	Req       *api.ChangePack
+	PushOnly  bool
+	DisableGC bool
+	Resp      *change.Pack
+	Err       error
+}
+
 // MClient performs, step by step, what client.Client does around a document.
 type MClient struct {
+	Rec    func(CallRec)
 	S      *Server
 	rpc    v1connect.YorkieServiceClient
 	APIKey string
@@ -79,7 +91,14 @@ func (c *MClient) Activate(ctx context.Context) error {
 	}
 	c.ID = id
 	c.Active = true
+	c.rec(CallRec{Kind: "activate", Client: id})
 	return nil
+}
+
+func (c *MClient) rec(r CallRec) {
+	if c.Rec != nil {
+		c.Rec(r)
+	}
 }
 
 // Deactivate deactivates the client (synchronously, as client.Client does by default).
@@ -90,6 +109,7 @@ func (c *MClient) Deactivate(ctx context.Context) error {
 	if err == nil {
 		c.Active = false
 	}
+	c.rec(CallRec{Kind: "deactivate", Client: c.ID, Err: err})
 	return err
 }
 
@@ -137,12 +157,14 @@ func (c *MClient) AttachBegin(ctx context.Context, docKey string, o AttachOpts) 
 		ClientId: c.ID.String(), ChangePack: pb, DisableGc: o.DisableGC, DisablePresence: o.DisablePresence,
 	}), c.APIKey, docKey))
 	if err != nil {
+		c.rec(CallRec{Kind: "attach", Client: c.ID, Req: pb, DisableGC: o.DisableGC, Err: err})
 		return a, &Inflight{A: a, Req: pb, Err: err, Kind: "attach"}
 	}
 	pack, err := converter.FromChangePack(res.Msg.ChangePack)
 	if err != nil {
 		return a, &Inflight{A: a, Req: pb, Err: err, Kind: "attach"}
 	}
+	c.rec(CallRec{Kind: "attach", Client: c.ID, Req: pb, DisableGC: o.DisableGC, Resp: pack})
 	a.DocID = res.Msg.DocumentId
 	a.DisablePresence = res.Msg.DisablePresence
 	// steps between response and ApplyChangePack
@@ -210,12 +232,14 @@ func (a *Att) Resend(ctx context.Context, pb *api.ChangePack, pushOnly bool) *In
 		ClientId: a.C.ID.String(), DocumentId: a.DocID, ChangePack: pb, PushOnly: pushOnly, DisableGc: a.DisableGC,
 	}), a.C.APIKey, a.Doc.Key().String()))
 	if err != nil {
+		a.C.rec(CallRec{Kind: "sync", Client: a.C.ID, Req: pb, PushOnly: pushOnly, DisableGC: a.DisableGC, Err: err})
 		return &Inflight{A: a, Req: pb, Err: err, Kind: "sync"}
 	}
 	pack, err := converter.FromChangePack(res.Msg.ChangePack)
 	if err != nil {
 		return &Inflight{A: a, Req: pb, Err: err, Kind: "sync"}
 	}
+	a.C.rec(CallRec{Kind: "sync", Client: a.C.ID, Req: pb, PushOnly: pushOnly, DisableGC: a.DisableGC, Resp: pack})
 	return &Inflight{A: a, Req: pb, Resp: pack, Kind: "sync"}
 }
 
@@ -238,12 +262,14 @@ func (a *Att) DetachBegin(ctx context.Context) *Inflight {
 		ClientId: a.C.ID.String(), DocumentId: a.DocID, ChangePack: pb,
 	}), a.C.APIKey, a.Doc.Key().String()))
 	if err != nil {
+		a.C.rec(CallRec{Kind: "detach", Client: a.C.ID, Req: pb, Err: err})
 		return &Inflight{A: a, Req: pb, Err: err, Kind: "detach"}
 	}
 	pack, err := converter.FromChangePack(res.Msg.ChangePack)
 	if err != nil {
 		return &Inflight{A: a, Req: pb, Err: err, Kind: "detach"}
 	}
+	a.C.rec(CallRec{Kind: "detach", Client: a.C.ID, Req: pb, Resp: pack})
 	return &Inflight{A: a, Req: pb, Resp: pack, Kind: "detach"}
 }
 
@@ -261,12 +287,14 @@ func (a *Att) Remove(ctx context.Context) error {
 		ClientId: a.C.ID.String(), DocumentId: a.DocID, ChangePack: pb,
 	}), a.C.APIKey, a.Doc.Key().String()))
 	if err != nil {
+		a.C.rec(CallRec{Kind: "remove", Client: a.C.ID, Req: pb, Err: err})
 		return err
 	}
 	pack, err := converter.FromChangePack(res.Msg.ChangePack)
 	if err != nil {
 		return err
 	}
+	a.C.rec(CallRec{Kind: "remove", Client: a.C.ID, Req: pb, Resp: pack})
 	f := &Inflight{A: a, Req: pb, Resp: pack, Kind: "remove"}
 	return f.Apply()
 }
